@@ -135,6 +135,29 @@ def main():
                     break
         if len(bad) >= 50:
             break
+    # chains `a op b op c` and `a op b op c op d` (5 and 7 tokens): associativity and precedence between every pair /
+    # triple of binary operators, whatever the exhaustive length bound above is
+    BIN = [op for lv in LEVELS for op in lv]
+    chain_cases = 0
+    shapes = [(['1', '2', '7', '10'], 3), (['2', '7'], 4)]
+    for operands, n_opnd in shapes:
+        for vals in itertools.product(operands, repeat=n_opnd):
+            for ops in itertools.product(BIN, repeat=n_opnd - 1):
+                toks = [vals[0]]
+                for o, v in zip(ops, vals[1:]):
+                    toks += [o, v]
+                chain_cases += 1
+                try:
+                    want = ('ok', ref_eval(list(toks)))
+                except Reject:
+                    want = ('reject', None)
+                try:
+                    got = ('ok', real_eval(' '.join(toks)))
+                except Reject:
+                    got = ('reject', None)
+                if want != got and len(bad) < 50:
+                    bad.append(dict(text=' '.join(toks), expected=want, observed=got))
+    cases += chain_cases
     # literal notations (decimal, $ / 0x / trailing-H hexadecimal, % / b binary, quoted character): every value of a
     # window in every notation must denote its mathematical value, alone and inside an expression
     lit_cases = 0
@@ -165,7 +188,7 @@ def main():
         if got != ('ok', code) and len(bad) < 50:
             bad.append(dict(text=text, expected=('ok', code), observed=got))
     cases += lit_cases
-    json.dump(dict(cases=cases, literal_cases=lit_cases, wellformed_with_3_or_more_tokens=nontrivial, max_tokens=n_max,
+    json.dump(dict(cases=cases, literal_cases=lit_cases, operator_chain_cases=chain_cases, wellformed_with_3_or_more_tokens=nontrivial, max_tokens=n_max,
                    alphabet=ALPHABET, disagreements=bad), open(out, 'w'), indent=1)
     print(f'bounded C07 parser check: {cases} token sequences up to length {n_max}, {len(bad)} disagreements')
     for b in bad[:10]:
